@@ -8,12 +8,11 @@ dereferenced".  The abstraction of a table is the function `k ↦ rawget t k` (n
 is part of the map update itself.  All theorems are for every hash function `h`, every table satisfying the
 invariant and every operation list.
 
-What is *not* proved here (see notes/C04.md): that the NULL dereference flag `bad` never goes up (it needs the
-counting argument count + deleted < capacity; the theorems below are stated for runs on which the flag stayed down,
-and the correspondence harness compares the flag on every op), `count` = number of keys, capacity a power of two,
-and the refinement theorems for arrays / buffers other than index decoding.
+`Inv` also carries the counting part (`count` = number of keys, `deleted` = number of tombstones, at least half of the
+buckets empty), from which `no_null_deref` follows: `janet_dict_find` never returns NULL where table.c dereferences
+its result, so none of the theorems needs a side condition on the run.
 -/
-import JanetModel.Table.Lemmas
+import JanetModel.Table.Count
 import JanetModel.Seq.Model
 
 namespace JanetModel.Props.C04
@@ -23,8 +22,12 @@ open JanetModel.Table JanetModel.Gen.Table
 
 /-- invariant of a table -/
 structure Inv (h : Nat → Nat) (t : Table) : Prop where
+  /-- no duplicate keys, probe-path property, stored values non-nil -/
   d : DInv h t.data
+  /-- no NULL bucket was dereferenced -/
   ok : t.bad = false
+  /-- count = #keys, deleted = #tombstones, 0 < capacity, 2 * (count + deleted) ≤ capacity -/
+  c : CInv t
 
 /-- the finite map a table stands for: key ↦ value, nil = absent -/
 def abs (h : Nat → Nat) (t : Table) : Nat → Val := fun k => t.rawget h k
@@ -59,7 +62,7 @@ def specStep (m : Nat → Val) : Op → (Nat → Val)
   | .setproto _ => m
 
 theorem inv_init (h : Nat → Nat) (n : Nat) : Inv h (Table.init n) :=
-  ⟨DInv.replicate h _, rfl⟩
+  ⟨DInv.replicate h _, rfl, CInv.init n⟩
 
 theorem abs_init (h : Nat → Nat) (n : Nat) (k : Nat) : abs h (Table.init n) k = vNil :=
   rawget_miss (fun i => by
@@ -67,79 +70,68 @@ theorem abs_init (h : Nat → Nat) (n : Nat) (k : Nat) : abs h (Table.init n) k 
     rw [slotAt_replicate]; simp [Slot.empty])
 
 theorem inv_clear (h : Nat → Nat) (t : Table) (inv : Inv h t) : Inv h t.clear :=
-  ⟨DInv.replicate h _, inv.ok⟩
+  ⟨DInv.replicate h _, inv.ok, inv.c.clear⟩
 
 theorem abs_clear (h : Nat → Nat) (t : Table) (k : Nat) : abs h t.clear k = vNil :=
   rawget_miss (fun i => by
     show ¬ (slotAt (Array.replicate _ Slot.empty) i).key = some k
     rw [slotAt_replicate]; simp [Slot.empty])
 
-theorem inv_clone (h : Nat → Nat) (t : Table) (inv : Inv h t) : Inv h t.clone := ⟨inv.d, inv.ok⟩
+theorem inv_clone (h : Nat → Nat) (t : Table) (inv : Inv h t) : Inv h t.clone :=
+  ⟨inv.d, inv.ok, ⟨inv.c.cnt, inv.c.del, inv.c.shape, inv.c.pos, inv.c.room⟩⟩
 
 theorem abs_clone (h : Nat → Nat) (t : Table) (k : Nat) : abs h t.clone k = abs h t k := rfl
 
 theorem inv_remove (h : Nat → Nat) (t : Table) (inv : Inv h t) (k : Nat) : Inv h (t.remove h k).1 :=
-  ⟨(remove_spec inv.d k).1, by rw [(remove_spec inv.d k).2.1]; exact inv.ok⟩
+  ⟨(remove_spec inv.d k).1, by rw [(remove_spec inv.d k).2.1]; exact inv.ok, remove_counts inv.d inv.c k⟩
 
 theorem abs_remove (h : Nat → Nat) (t : Table) (inv : Inv h t) (k : Nat) :
     abs h (t.remove h k).1 = upd (abs h t) k vNil ∧ (t.remove h k).2 = abs h t k := by
   refine ⟨funext (fun k' => ?_), (remove_spec inv.d k).2.2.1⟩
   exact (remove_spec inv.d k).2.2.2 k'
 
-/-- `janet_table_rehash` keeps the invariant and the abstraction -/
-theorem inv_rehash (h : Nat → Nat) (t : Table) (inv : Inv h t) (n : Nat) (hb : (t.rehash h n).bad = false) :
-    Inv h (t.rehash h n) ∧ abs h (t.rehash h n) = abs h t :=
-  ⟨⟨(rehash_spec inv.d n).1, hb⟩, funext (fun k => ((rehash_spec inv.d n).2.2 hb).2 k)⟩
+/-- `janet_table_rehash` to any size with at least half of the buckets free keeps the invariant and the abstraction -/
+theorem inv_rehash (h : Nat → Nat) (t : Table) (inv : Inv h t) (n : Nat) (hn : 2 * t.count ≤ n) (hpos : t.count < n) :
+    Inv h (t.rehash h n) ∧ abs h (t.rehash h n) = abs h t := by
+  have hc := rehash_counts (h := h) inv.d n (by rw [← inv.c.cnt]; exact hpos)
+  have hs := rehash_spec (h := h) inv.d n
+  have hb : (t.rehash h n).bad = false := by rw [hc.1]; exact inv.ok
+  refine ⟨⟨hs.1, hb, ⟨?_, ?_, shape_of_nTomb_zero hc.2.2.1, ?_, ?_⟩⟩, funext (fun k => (hs.2.2 hb).2 k)⟩
+  · rw [hc.2.2.2.1, hc.2.1]; exact inv.c.cnt
+  · rw [hc.2.2.2.2, hc.2.2.1]
+  · rw [hs.2.1]; omega
+  · rw [hs.2.1, hc.2.2.2.1, hc.2.2.2.2]; omega
 
-theorem inv_put (h : Nat → Nat) (t : Table) (inv : Inv h t) (k : KArg) (v : Val)
-    (hb : (t.put h k v).bad = false) : Inv h (t.put h k v) := by
+/-- **no NULL dereference**: from a state satisfying the invariant, `janet_table_put` never meets a NULL bucket -/
+theorem no_null_deref (h : Nat → Nat) (t : Table) (inv : Inv h t) (k : KArg) (v : Val) : (t.put h k v).bad = false := by
+  cases k with
+  | nil => exact inv.ok
+  | nan => exact inv.ok
+  | key k =>
+    show (t.putKey h k v).bad = false
+    rw [(putKey_counts inv.d inv.c inv.ok k v).2]; exact inv.ok
+
+theorem inv_put (h : Nat → Nat) (t : Table) (inv : Inv h t) (k : KArg) (v : Val) : Inv h (t.put h k v) := by
+  have hb := no_null_deref h t inv k v
   cases k with
   | nil => exact inv
   | nan => exact inv
-  | key k => exact ⟨(putKey_spec inv.d k v hb).1, hb⟩
+  | key k => exact ⟨(putKey_spec inv.d k v hb).1, hb, (putKey_counts inv.d inv.c inv.ok k v).1⟩
 
 /-- `put` is the finite-map update; putting nil removes; nil / NaN keys are ignored -/
-theorem abs_put (h : Nat → Nat) (t : Table) (inv : Inv h t) (k : KArg) (v : Val)
-    (hb : (t.put h k v).bad = false) : abs h (t.put h k v) = specStep (abs h t) (.put k v) := by
+theorem abs_put (h : Nat → Nat) (t : Table) (inv : Inv h t) (k : KArg) (v : Val) :
+    abs h (t.put h k v) = specStep (abs h t) (.put k v) := by
+  have hb := no_null_deref h t inv k v
   cases k with
   | nil => rfl
   | nan => rfl
   | key k => exact funext (fun k' => (putKey_spec inv.d k v hb).2.2 k')
 
-/-- once a NULL dereference has been recorded it stays recorded -/
-theorem bad_sticky_putKey (h : Nat → Nat) (t : Table) (k : Nat) (v : Val) (hb : t.bad = true) :
-    (t.putKey h k v).bad = true := by
-  unfold Table.putKey
-  by_cases hv : v = vNil
-  · simp only [hv, if_true]
-    unfold Table.remove
-    cases hit t.data (dictFind h t.data k) <;> simp [hb]
-  · simp only [hv, if_false]
-    cases hit t.data (dictFind h t.data k) with
-    | some i => simp [hb]
-    | none =>
-      simp only []
-      unfold Table.insertNew Table.insertAt
-      have h1 : (t.maybeRehash h (dictFind h t.data k)).bad = true := by
-        unfold Table.maybeRehash
-        by_cases c : ((dictFind h t.data k).isNone || rehashNeeded t.count t.deleted t.capacity) = true
-        · rw [if_pos c]; unfold Table.rehash; simp only []; rw [hb]; exact rehashLoop_bad _ _ _
-        · rw [if_neg c]; exact hb
-      cases dictFind h (t.maybeRehash h (dictFind h t.data k)).data k <;> simp [h1]
+theorem inv_putKey (h : Nat → Nat) (t : Table) (inv : Inv h t) (k : Nat) (v : Val) :
+    Inv h (t.putKey h k v) ∧ abs h (t.putKey h k v) = upd (abs h t) k v :=
+  ⟨inv_put h t inv (.key k) v, abs_put h t inv (.key k) v⟩
 
-theorem bad_sticky_mergekv (h : Nat → Nat) (l : List Slot) (t : Table) (hb : t.bad = true) :
-    (t.mergekv h l).bad = true := by
-  induction l generalizing t with
-  | nil => exact hb
-  | cons a l ihl =>
-    have e : t.mergekv h (a :: l) = (match a.key with | some k => t.putKey h k a.val | none => t).mergekv h l := rfl
-    rw [e]
-    cases a.key with
-    | none => exact ihl t hb
-    | some ka => exact ihl _ (bad_sticky_putKey h t ka a.val hb)
-
-theorem inv_merge (h : Nat → Nat) (kvs : List Slot) (t : Table) (inv : Inv h t)
-    (hb : (t.mergekv h kvs).bad = false) :
+theorem inv_merge (h : Nat → Nat) (kvs : List Slot) (t : Table) (inv : Inv h t) :
     Inv h (t.mergekv h kvs) ∧ abs h (t.mergekv h kvs) = specStep (abs h t) (.merge kvs) := by
   induction kvs generalizing t with
   | nil => exact ⟨inv, rfl⟩
@@ -147,89 +139,66 @@ theorem inv_merge (h : Nat → Nat) (kvs : List Slot) (t : Table) (inv : Inv h t
     have e : t.mergekv h (kv :: rest) = (match kv.key with | some k => t.putKey h k kv.val | none => t).mergekv h rest := rfl
     have e2 : specStep (abs h t) (.merge (kv :: rest)) =
         specStep (match kv.key with | some k => upd (abs h t) k kv.val | none => abs h t) (.merge rest) := rfl
-    rw [e] at hb ⊢
-    rw [e2]
+    rw [e, e2]
     cases hk : kv.key with
-    | none =>
-      simp only [hk] at hb ⊢
-      exact ih t inv hb
+    | none => simp only []; exact ih t inv
     | some k =>
-      simp only [hk] at hb ⊢
-      have hb1 : (t.putKey h k kv.val).bad = false := by
-        cases hbb : (t.putKey h k kv.val).bad with
-        | false => rfl
-        | true =>
-          have := bad_sticky_mergekv h rest _ hbb
-          rw [this] at hb; cases hb
-      have hp := putKey_spec inv.d k kv.val hb1
-      have := ih (t.putKey h k kv.val) ⟨hp.1, hb1⟩ hb
-      refine ⟨this.1, ?_⟩
-      have e3 : abs h (t.putKey h k kv.val) = upd (abs h t) k kv.val := funext (fun k' => hp.2.2 k')
-      rw [← e3]
-      exact this.2
+      simp only []
+      have hp := inv_putKey h t inv k kv.val
+      have := ih (t.putKey h k kv.val) hp.1
+      rw [← hp.2]
+      exact this
 
-theorem abs_merge (h : Nat → Nat) (kvs : List Slot) (t : Table) (inv : Inv h t)
-    (hb : (t.mergekv h kvs).bad = false) :
-    abs h (t.mergekv h kvs) = specStep (abs h t) (.merge kvs) := (inv_merge h kvs t inv hb).2
-
-theorem bad_sticky_step (h : Nat → Nat) (t : Table) (op : Op) (hb : t.bad = true) : (step h t op).bad = true := by
-  cases op with
-  | put k v =>
-    cases k with
-    | nil => exact hb
-    | nan => exact hb
-    | key k => exact bad_sticky_putKey h t k v hb
-  | remove k =>
-    simp only [step]; unfold Table.remove
-    cases hit t.data (dictFind h t.data k) <;> simp [hb]
-  | clear => exact hb
-  | merge kvs => exact bad_sticky_mergekv h kvs t hb
-  | setproto p => exact hb
-
-theorem bad_sticky_run (h : Nat → Nat) (ops : List Op) (t : Table) (hb : t.bad = true) : (run h t ops).bad = true := by
-  induction ops generalizing t with
-  | nil => exact hb
-  | cons op rest ih => exact ih _ (bad_sticky_step h t op hb)
+theorem abs_merge (h : Nat → Nat) (kvs : List Slot) (t : Table) (inv : Inv h t) :
+    abs h (t.mergekv h kvs) = specStep (abs h t) (.merge kvs) := (inv_merge h kvs t inv).2
 
 /-- one step refines the reference step -/
-theorem step_refines (h : Nat → Nat) (t : Table) (inv : Inv h t) (op : Op) (hb : (step h t op).bad = false) :
+theorem step_refines (h : Nat → Nat) (t : Table) (inv : Inv h t) (op : Op) :
     Inv h (step h t op) ∧ abs h (step h t op) = specStep (abs h t) op := by
   cases op with
-  | put k v => exact ⟨inv_put h t inv k v hb, abs_put h t inv k v hb⟩
+  | put k v => exact ⟨inv_put h t inv k v, abs_put h t inv k v⟩
   | remove k => exact ⟨inv_remove h t inv k, (abs_remove h t inv k).1⟩
   | clear => exact ⟨inv_clear h t inv, funext (fun k => abs_clear h t k)⟩
-  | merge kvs => exact inv_merge h kvs t inv hb
-  | setproto p => exact ⟨⟨inv.d, inv.ok⟩, rfl⟩
+  | merge kvs => exact inv_merge h kvs t inv
+  | setproto p => exact ⟨⟨inv.d, inv.ok, ⟨inv.c.cnt, inv.c.del, inv.c.shape, inv.c.pos, inv.c.room⟩⟩, rfl⟩
 
 /-- **Refinement, for all operation sequences**: from any table satisfying the invariant (in particular a fresh
-one), after any list of operations the table satisfies the invariant and equals — as a map — the finite map obtained
-by replaying the same puts and removals. -/
-theorem inv_reachable (h : Nat → Nat) (ops : List Op) (t : Table) (inv : Inv h t)
-    (hb : (run h t ops).bad = false) :
+one), after any list of operations the table satisfies the invariant — so no NULL bucket was dereferenced, `count` is
+the number of keys, `deleted` the number of tombstones — and equals, as a map, the finite map obtained by replaying the
+same puts and removals. -/
+theorem inv_reachable (h : Nat → Nat) (ops : List Op) (t : Table) (inv : Inv h t) :
     Inv h (run h t ops) ∧ abs h (run h t ops) = ops.foldl specStep (abs h t) := by
   induction ops generalizing t with
   | nil => exact ⟨inv, rfl⟩
   | cons op rest ih =>
-    have hb1 : (step h t op).bad = false := by
-      cases hbb : (step h t op).bad with
-      | false => rfl
-      | true =>
-        have := bad_sticky_run h rest _ hbb
-        simp only [run, List.foldl_cons] at hb
-        simp only [run] at this
-        rw [this] at hb; cases hb
-    have hs := step_refines h t inv op hb1
-    have := ih (step h t op) hs.1 (by simpa [run] using hb)
+    have hs := step_refines h t inv op
+    have := ih (step h t op) hs.1
     simp only [run, List.foldl_cons] at this ⊢
     rw [← hs.2]
     exact this
 
-theorem abs_run (h : Nat → Nat) (ops : List Op) (n : Nat) (hb : (run h (Table.init n) ops).bad = false) (k : Nat) :
+theorem abs_run (h : Nat → Nat) (ops : List Op) (n : Nat) (k : Nat) :
     (run h (Table.init n) ops).rawget h k = ops.foldl specStep (fun _ => vNil) k := by
-  have := (inv_reachable h ops (Table.init n) (inv_init h n) hb).2
+  have := (inv_reachable h ops (Table.init n) (inv_init h n)).2
   have e : abs h (Table.init n) = fun _ => vNil := funext (fun k => abs_init h n k)
   rw [e] at this
   exact congrFun this k
+
+/-- `length` (the `count` field) is the number of entries; `deleted` is the number of tombstones -/
+theorem length_eq_card (h : Nat → Nat) (t : Table) (inv : Inv h t) :
+    t.count = (keysOf t.data).length ∧ t.deleted = nTomb t.data ∧
+      (keysOf t.data).Nodup ∧ ∀ k, k ∈ keysOf t.data ↔ abs h t k ≠ vNil := by
+  refine ⟨?_, inv.c.del, (iterNext_all inv.d).2.1, (iterNext_all inv.d).2.2⟩
+  rw [inv.c.cnt]
+  unfold nLive keysOf
+  rw [← Array.countP_toList, List.length_filterMap_eq_countP]
+  rfl
+
+/-- after any history from a fresh table: `length` = number of keys of the replayed map's support -/
+theorem length_reachable (h : Nat → Nat) (ops : List Op) (n : Nat) :
+    (run h (Table.init n) ops).count = (keysOf (run h (Table.init n) ops).data).length ∧
+      (run h (Table.init n) ops).bad = false :=
+  ⟨(length_eq_card h _ (inv_reachable h ops _ (inv_init h n)).1).1, (inv_reachable h ops _ (inv_init h n)).1.ok⟩
 
 /-- `rawget` reads exactly the bucket array: present key ↦ its value, absent key ↦ nil -/
 theorem rawget_spec (h : Nat → Nat) (t : Table) (inv : Inv h t) (k : Nat) :
@@ -298,7 +267,7 @@ theorem rehash_has_room (count : Nat) : 2 * count + 2 < rehashSize count := by
 
 /-- non-vacuity: a table with two colliding keys, a tombstone and a rehash behind it satisfies the hypotheses -/
 example : (run (fun _ => 7) (Table.init 0)
-    [.put (.key 1) 5, .put (.key 2) 6, .put (.key 3) 7, .remove 2, .put (.key 4) 1, .put (.key 1) 0]).bad = false := by decide
+    [.put (.key 1) 5, .put (.key 2) 6, .put (.key 3) 7, .remove 2, .put (.key 4) 1, .put (.key 1) 0]).deleted = 2 := by decide
 
 /-! ## sequences: index and range decoding never yields an out-of-range position -/
 open JanetModel.Seq JanetModel.Gen.Seq
